@@ -258,7 +258,21 @@ def run_case(S, pre, tmp, scopes=SCOPES):
         NM.default = 'DEFAULT'
     if not any(r[1].startswith('not-unique') or r[1] == 'no-identifier' for r in res['ident']):
         res['names'] = check_names(S, reg, m)
+    forget(n); forget(m)
     return res
+
+
+def forget(n):
+    """Harness hygiene only: the namespace manager keeps every netlist alive (its WeakKeyDictionary values refer back to
+    the keys); drop the tables of a netlist that is no longer used so that long runs stay linear."""
+    try:
+        for l in list(n.libraries):
+            for d in list(l.definitions):
+                NM.namespaces.pop(d, None)
+            NM.namespaces.pop(l, None)
+        NM.namespaces.pop(n, None)
+    except Exception:
+        pass
 
 
 def evaluate(S, pre, tmp, out, cfg, seen, seed):
@@ -288,11 +302,14 @@ def evaluate(S, pre, tmp, out, cfg, seen, seed):
                  'the exported file is rejected by the reader (%s: %s); identifiers were already found invalid' % res['parse'])
         else:
             where = []
-            for sc in SCOPES:
-                for s in S:
+            # most suspicious first: quotes / percent, then brackets, then the rest; bundles before the other scopes
+            order = sorted(S, key=lambda s: (0 if ('"' in s or '%' in s) else 1 if ('[' in s or ']' in s) else 2, S.index(s)))
+            for sc in ['nets', 'ports', 'libraries', 'cells', 'instances']:
+                for s in order:
                     r1 = run_case([s], None, tmp, scopes=[sc])
                     if r1['parse'] and not r1['ident']:
                         where.append((sc, s))
+                        break
                 if where:
                     break
             sc, s = where[0] if where else ('combination', S[0])
